@@ -6,6 +6,7 @@ import CatiiProofs.Update
 import CatiiProofs.FromArray
 import CatiiProofs.FromArrayWf
 import CatiiProofs.ColumnStack
+import CatiiProofs.Reindexed
 /-!
 # C07 — every operation preserves index well-formedness
 
@@ -15,7 +16,7 @@ coordinates within the shape, no row under two values of the same column.  `wf` 
 version the harness evaluates on every real result; `wf_sound` ties the two.
 
 **Partial**: preservation is proved for `shift_common` (any value, and the library-chosen one),
-`copy`, `append` (any operands with the same higher shape whose rows fit 32 bits), `filtered` (any mask), `update` (any consistent cell assignments), `column_stack` and construction
+`copy`, `append` (any operands with the same higher shape whose rows fit 32 bits), `filtered` (any mask), `update` (any consistent cell assignments), `column_stack`, `reindexed` and construction
 from arrays (`from_array_wellformed`); for the other operations it is checked after every step of every generated history
 on the real code (`validate(True)` plus the range / arity / non-emptiness conditions) and on the
 model (`wf`), but is not yet a theorem.
@@ -58,6 +59,12 @@ theorem column_stack_preserves_partial (first : IIndex) (tl : List IIndex) (newC
     (n : Nat) (hall : ∀ x ∈ first :: tl, WF x ∧ x.ndim ≤ 2 ∧ x.nrows = n)
     (h : columnStack (first :: tl) newCommon = .ok r) : WF r :=
   (columnStack_refines first tl newCommon r n hall h).1
+
+/-- `reindexed(mapping)` preserves well-formedness for every mapping (injective, many-to-one, onto the common
+value, default), with or without the final re-normalisation -/
+theorem reindexed_preserves_partial (i : IIndex) (h : WF i) (hnd : i.ndim ≤ 2) (mapping : Option (List (Int × Int)))
+    (shift : Bool) (r : IIndex) (hr : reindexed i mapping shift false = .ok r) : WF r :=
+  (reindexed_refines i h hnd mapping shift r hr).1
 
 /-- consequence named by the property: after re-encoding nothing is listed under the common value
 and no entry is empty, so the set of listed values contains no category that occurs nowhere -/
